@@ -297,6 +297,8 @@ class State:
         return st
 
     def havoc(self, keys, tag):
+        if not keys:
+            return self
         st = self.copy()
         for k in keys:
             st.f[k] = SV.fresh(self.schema.fields[k], '%s.%s.%s' % (tag, k[0], k[1]))
